@@ -231,10 +231,25 @@ def run_check(pid, tier, replay=None):
 
     # ---- confirm failures in isolation, classify
     known = [k for k in load_known() if k["property"] == pid]
-    open_sigs = {k["signature"]: k for k in known if k.get("status") == "open"}
+    open_list = [k for k in known if k.get("status") == "open"]
+
+    def known_entry(sig):
+        """Exact signature, or an fnmatch pattern (used to identify a finding by its call site)."""
+        import fnmatch
+        for k in open_list:
+            if k["signature"] == sig or (any(c in k["signature"] for c in "*?") and fnmatch.fnmatchcase(sig, k["signature"])):
+                return k
+        return None
+
     confirmed, unconfirmed = {}, {}
+    known_confirmed = set()
     for sig, lst in sorted(failures.items()):
         ok = None
+        ke0 = known_entry(sig)
+        if ke0 is not None and ke0["signature"] in known_confirmed:
+            # this listed finding was already re-executed in isolation through another instance
+            confirmed[sig] = ((lst[0][0], lst[0][1]), len(lst))
+            continue
         for elem, fl in lst[:3]:
             _, r2, err = _eval_one(elem)
             if err:
@@ -245,6 +260,8 @@ def run_check(pid, tier, replay=None):
                 break
         if ok:
             confirmed[sig] = (ok, len(lst))
+            if ke0 is not None:
+                known_confirmed.add(ke0["signature"])
         else:
             unconfirmed[sig] = len(lst)
 
@@ -253,9 +270,12 @@ def run_check(pid, tier, replay=None):
     viol = 0
     os.makedirs(REPLAYS, exist_ok=True)
     for sig, ((elem, fl), n) in sorted(confirmed.items()):
-        if sig in open_sigs:
-            known_counts[sig] = n
-            print("KNOWN-FINDING: property=%s %s [%s; %d instance(s) this run]" % (pid, open_sigs[sig]["what"], sig, n))
+        ke = known_entry(sig)
+        if ke is not None:
+            kk = ke["signature"]
+            if kk not in known_counts:
+                print("KNOWN-FINDING: property=%s %s [%s]" % (pid, ke["what"], kk))
+            known_counts[kk] = known_counts.get(kk, 0) + n
             continue
         path = os.path.join(REPLAYS, "%s-%s.json" % (pid, hashlib.sha256(sig.encode()).hexdigest()[:10]))
         with open(path, "w") as f:
